@@ -99,6 +99,18 @@ func newSession(stor storage.Storage, o *opt.Options) (s *session, err error) {
 
 // Close session.
 func (s *session) close() {
+	if s.manifestBroken && s.manifest != nil {
+		// The last append failed; its record may be in the file although the
+		// commit was reported as failed. Leave a manifest behind that
+		// describes the version that is current.
+		v := s.version()
+		if err := s.newManifest(nil, v); err != nil {
+			s.logf("manifest@close replacing @%d %q", s.manifestFd.Num, err)
+		} else {
+			s.manifestBroken = false
+		}
+		v.release()
+	}
 	s.tops.close()
 	if s.manifest != nil {
 		s.manifest.Close()
